@@ -123,6 +123,8 @@ type Env struct {
 	Faults       map[string]int
 	Probes       map[string]int
 	HandlerLog   []string
+	OptWanted    map[string]bool // run tag -> the call carries an undesignated lambda option
+	Prefix       string          // class prefix of the profile that runs (for problems found by the harness nodes)
 	// SeenOpt records lambda options seen by node bodies: tag|path -> option tags
 	Callbacks *CBLog
 }
@@ -132,7 +134,7 @@ type Problem struct{ Class, Msg string }
 func NewEnv(s *kernel.Sim) *Env {
 	return &Env{S: s, branchEval: map[string]int{}, execCount: map[string]int{}, doneCount: map[string]int{},
 		inCrit: map[*St]string{}, Faults: map[string]int{}, Probes: map[string]int{}, Callbacks: &CBLog{},
-		StatePath: map[*St]string{}, CritCount: map[*St]int{}, LastState: map[string]*St{}, StateLineage: map[*St]string{},
+		StatePath: map[*St]string{}, CritCount: map[*St]int{}, LastState: map[string]*St{}, StateLineage: map[*St]string{}, OptWanted: map[string]bool{},
 		abortedLast: map[string]bool{}, ScriptOffset: map[string]int{}}
 }
 
@@ -439,6 +441,9 @@ func (b *builder) critical(ctx context.Context, st *St, who string, statePath st
 // checkOpts: a call option reaches the node bodies of its own call only.
 func (b *builder) checkOpts(ctx context.Context, full string, os []lopt) {
 	tag := tagOf(ctx)
+	if b.env.OptWanted[tag] && len(os) != 1 {
+		b.env.problem(b.env.Prefix+"/call-option-not-delivered", fmt.Sprintf("the call of run %s carries one lambda option for every lambda node; node %s received %d", tag, full, len(os)))
+	}
 	for _, o := range os {
 		b.env.Probes["lambda_option_seen"]++
 		if o.Tag != tag {
